@@ -61,6 +61,12 @@ impl<const BITS: usize, const LIMBS: usize> Uint<BITS, LIMBS> {
         // See <https://gmplib.org/manual/Nth-Root-Algorithm>
         let mut decreasing = false;
         loop {
+            #[cfg(feature = "recmo_uint_verif")]
+            crate::verif_hooks::hit(135);
+            #[cfg(feature = "recmo_uint_verif")]
+            if result.checked_pow(deg_m1).is_none() {
+                crate::verif_hooks::hit(136);
+            }
             // OPT: This could benefit from single-limb multiplication
             // and division.
             //
@@ -70,6 +76,13 @@ impl<const BITS: usize, const LIMBS: usize> Uint<BITS, LIMBS> {
                 .checked_pow(deg_m1)
                 .map_or(Self::ZERO, |power| self / power);
             let iter = (division + deg_m1 * result) / Self::from(degree);
+            #[cfg(feature = "recmo_uint_verif")]
+            match (decreasing, iter.cmp(&result)) {
+                (false, Ordering::Greater) => crate::verif_hooks::hit(137),
+                (true, Ordering::Greater) => crate::verif_hooks::hit(138),
+                (_, Ordering::Less) => crate::verif_hooks::hit(139),
+                _ => {}
+            }
             match (decreasing, iter.cmp(&result)) {
                 // Stop when we hit fix point or stop decreasing.
                 (_, Ordering::Equal) | (true, Ordering::Greater) => break result,
